@@ -15,7 +15,9 @@ INPUTS = {
     "lalr_conflict": ('grammar calc;\nstart = expr;\nexpr = expr "+" expr | NUM;\nNUM = /[0-9]+/;\n', dict(parse=1, lexer=1, parser=0)),
     "empty": ('', dict(parse=0, lexer=0, parser=0)),
 }
-NAMES = {"": None, "parser": 1, "calc2": 1, "_": 0, "func": 0, "9lives": 0, "a-b": 0, "naïve": 1, "Pkg_1": 1, "string": 0, "x/y": 0, "..": 0}
+NAMES = {"": None, "parser": 1, "calc2": 1, "_": 0, "func": 0, "9lives": 0, "a-b": 0, "naïve": 1, "Pkg_1": 1, "string": 0, "x/y": 0, "..": 0,
+         # names that are paths: the last element alone may look like an identifier
+         "../escaped": 0, "./dotted": 0, "trailing/": 0, "cwd/../again": 0, "../cwd/inside": 0, "/abs": 0, "a/../../up": 0, ".": 0, "./.": 0}
 
 # The rule emerge documents for a usable package name: a Go identifier ([letter or _][letter, decimal digit or _]*, with
 # Unicode letters = categories L*, decimal digits = category Nd), not the blank identifier, not a keyword or predeclared name.
